@@ -198,11 +198,17 @@ def orderWMedian (maxiter : Nat) (g : G) : M (G × Nat) := do
   pure (sortLayersByPos g, bestx)
 
 /-- The ordering phase as the composed model uses it: of the state the heuristic returns, only what an ordering may change — the
-    positions and the layer lists — is taken over; everything else is the incoming state. (For the code as it is this is the same
+    positions and the layer lists, each a reordering of what it was — is taken over; everything else is the incoming state. (For the code as it is this is the same
     function as `orderWMedian`: the correspondence key `T:phase3-wmedian` compares THIS function with the real phase on every traced
     run, so an ordering phase that touched anything else would show as a difference.) -/
+def sameLayers (a b : Array Layer) : Bool :=
+  a.size == b.size && (a.toList.zip b.toList).all fun (x, y) => x.nodes.isPerm y.nodes
+
 def orderWMedianP (maxiter : Nat) (g : G) : M (G × Nat) := do
   let (g', x) ← orderWMedian maxiter g
+  -- an ordering is a reordering: every layer list must hold the nodes it held (for the code as it is this never fires; if it did,
+  -- the model would err where the code returns and `T:phase3-wmedian` would show it)
+  if !sameLayers g.layers g'.layers then throw "model: the ordering phase changed the membership of a layer list"
   pure ({ g with nodes := g.nodes.mapIdx fun i nd => { nd with pos := (g'.node i).pos }, layers := g'.layers }, x)
 
 end Autog
